@@ -21,16 +21,16 @@ MODES = ("C01", "C02", "C03", "C04", "C05")
 # rough cost (seconds on one core) used only to keep runs short
 FIT_COST = {("daily", "default"): 2.0, ("daily", "legacy"): 0.4, ("daily", "seasonmap"): 2.0,
             ("daily", "dev_nosmooth"): 2.0, ("daily", "dev_alphaall"): 5.0, ("daily", "dev_nogauss"): 9.0,
-            ("daily", "dev_cvrmse"): 2.5, ("daily", "legacy_dev"): 0.6, ("daily", "weekmap"): 2.5, "billing": 0.4, "hourly": 1.2,
+            ("daily", "dev_cvrmse"): 2.5, ("daily", "legacy_dev"): 0.6, ("daily", "weekmap"): 2.5, ("daily", "shared_dict"): 2.0, "billing": 0.4, "hourly": 1.2,
             "caltrack": 10.0}
 PRED_COST = {"daily": 0.25, "billing": 0.25, "hourly": 0.8, "caltrack": 5.0}
 
 PROFILE_WEIGHTS = {
-    "daily": [("default", 5), ("legacy", 3), ("seasonmap", 2), ("weekmap", 1), ("dev_nosmooth", 1), ("dev_alphaall", 0.5),
+    "daily": [("default", 5), ("legacy", 3), ("seasonmap", 2), ("weekmap", 1), ("shared_dict", 1), ("dev_nosmooth", 1), ("dev_alphaall", 0.5),
               ("dev_nogauss", 0.3), ("dev_cvrmse", 1), ("legacy_dev", 1)],
     "billing": [("default", 5), ("seasonmap", 2), ("dev_cvrmse", 1.5), ("dev_split", 1)],
     "hourly": [("seed1", 4), ("seed0", 1), ("robust", 1.5), ("solar", 1.5), ("solar_rev", 0.8), ("nonsolar", 1.5), ("adaptive", 1), ("adaptive_lowthr", 0.7), ("lowthr", 1.5),
-               ("cvonly", 0.8), ("pnonly", 0.8), ("noedge", 1), ("supp", 0.8), ("suppcat", 0.6), ("obj", 1)],
+               ("cvonly", 0.8), ("pnonly", 0.8), ("noedge", 1), ("supp", 0.8), ("suppcat", 0.6), ("obj", 1), ("shared_obj", 1)],
     "caltrack": [("default", 1)],
 }
 DEFECTS = {"daily": ["short", "long", "gaps", "tmonth", "neg", "noise", "gaps+tmonth", "short+neg"],
@@ -181,10 +181,12 @@ class Gen:
         dfam = base["fam"]
         spans = ["day", "week", "month", "partial", "full", "baseline"]
         weights = [1.5, 2.5, 2, 2, 3, 1]
+        if base.get("src") != "sample" and dfam in ("daily", "hourly") and not base.get("defect"):
+            spans, weights = spans + ["long"], weights + [0.6]   # a reporting period longer than the baseline
         if base.get("src") == "sample" and dfam == "billing":
             spans, weights = ["partial", "full", "baseline"], [1, 2, 1]
         if self.mode == "C05":
-            weights = [3, 4, 2, 1.5, 3, 0.5][:len(spans)] if len(spans) == 6 else weights
+            weights = ([3, 4, 2, 1.5, 3, 0.5] + [1.0] * (len(spans) - 6)) if len(spans) >= 6 else weights
         rec["span"] = span or _wchoice(r, list(zip(spans, weights)))
         rec["obs"] = obs or _wchoice(r, [("present", 5), ("scaled", 0.5), ("shuffled", 0.5), ("partnan", 1.5),
                                          ("allnan", 1), ("absent", 1.5)])
@@ -252,6 +254,8 @@ class Gen:
         args = dict(m=mslot, fam=fam, profile=profile, d=base_slot, ignore=ignore)
         if reuse:
             args["reuse"] = True
+        if r.random() < 0.25:
+            args["pos"] = True
         ab = self._abort_mod(0.06 if self.mode != "C02" else 0.12) if allow_abort else None
         if ab:
             args["abort"] = ab
@@ -277,6 +281,8 @@ class Gen:
         fam = m.get("fam", "daily")
         if fam == "billing" and r.random() < 0.3:
             args["agg"] = r.choice(["monthly", "bimonthly", "none"])
+        if r.random() < 0.25:
+            args["pos"] = True
         ab = self._abort_mod(0.10 if self.mode != "C02" else 0.2)
         if ab:
             args["abort"] = ab
@@ -342,6 +348,8 @@ class Gen:
         long_span = "partial" if (base0.get("src") == "sample" and base0["fam"] == "billing") else r.choice(["month", "full"])
         if mode == "C01":
             self.predict(m0, ds[0], ignore=True)
+            if self.models[m0]["fam"] in ("daily", "billing"):
+                self.emit("PREDICT_GRID", m=m0, d=N_DATA_SLOTS - 1)
             doc = self.store(m0)
             if self.swarm["faults"]["crash"]:
                 self.crash()
@@ -354,6 +362,11 @@ class Gen:
             doc2 = self.store(m1)
             m2 = self.load(doc2)
             self.predict(m2, d_l, ignore=True)
+            if self.models[m2]["fam"] in ("daily", "billing"):
+                # far outside the fitted range and exactly on the balance points, restored and second generation
+                self.emit("PREDICT_GRID", m=m1, d=N_DATA_SLOTS - 1)
+                self.emit("PREDICT_GRID", m=m2, d=N_DATA_SLOTS - 1)
+                self.cost += 1.0
             self.emit("INSPECT", m=m2)
         elif mode == "C02":
             # spans of growing length over the same weeks: one day, the month around it, then whatever was drawn
@@ -569,10 +582,10 @@ class Gen:
         weights = {
             "make_reporting": 3, "make_baseline": 1.2, "fit": 1.6, "fit_shared": 0.5, "refit_key": 0.4, "refit_other": 0.5, "portfolio": 0.0, "predict": 7,
             "predict_odd": 0.6, "pair": 1.0, "store": 1.6, "load": 1.6, "store_load_predict": 0.8, "crash": 0.5,
-            "scribble_data": 0.5, "scribble_pred": 0.5, "abort_sweep": 0.15, "inspect": 0.4, "new_model": 0.25, "fault": 1.6,
+            "scribble_data": 0.5, "scribble_pred": 0.5, "abort_sweep": 0.15, "grid": 0.3, "inspect": 0.4, "new_model": 0.25, "fault": 1.6,
         }
         mult = {
-            "C01": {"store": 2.5, "load": 2.5, "store_load_predict": 4, "crash": 2.5, "fit": 1.3, "refit_other": 2},
+            "C01": {"grid": 4, "store": 2.5, "load": 2.5, "store_load_predict": 4, "crash": 2.5, "fit": 1.3, "refit_other": 2},
             "C02": {"predict": 1.4, "refit_other": 2, "abort_sweep": 5, "scribble_data": 2, "scribble_pred": 2, "fit_shared": 3, "inspect": 2,
                     "make_reporting": 1.3},
             "C03": {"refit_key": 9, "refit_other": 2, "portfolio": 1, "fit": 1.5, "fault": 2.5, "crash": 1.5, "predict": 0.6},
@@ -785,6 +798,12 @@ class Gen:
                 d = self.make_data(self._reporting(self.models[ms]["base"], span=r.choice(["day", "week"])))
                 self.emit("ABORT_SWEEP", m=ms, d=d, exc=r.choice(["MemoryError", "KeyboardInterrupt"]))
                 self.cost += 1.5
+            elif op == "grid":
+                cands = [m_ for m_ in fitted if self.models[m_]["fam"] in ("daily", "billing")]
+                if cands:
+                    self.emit("PREDICT_GRID", m=r.choice(cands), d=N_DATA_SLOTS - 1)
+                    self.data.pop(N_DATA_SLOTS - 1, None)
+                    self.cost += 0.5
             elif op == "scribble_data":
                 if self.data:
                     self.emit("SCRIBBLE_DATA", d=r.choice(sorted(self.data)))
